@@ -70,6 +70,15 @@ def extra_edits(root, rnd, kind):
         for el in root.iter():   # every reference: members of messages / components / groups, and group count fields
             if el.tag in ("field", "group") and el.get("name") == old and el is not f:
                 el.set("name", new)
+    elif kind == "hdrrequired":
+        # the 'required' attribute of a header member is toggled: it decides the arguments of NewHeader and nothing else (the four
+        # fields the session stamps keep their SetField* methods, no other member gets one)
+        hdr = root.find("header")
+        ms = [m for m in list(hdr) if m.tag == "field" and m.get("name") not in FRAMING]
+        pipe = [m for m in ms if m.get("name") in PIPELINE]
+        other = [m for m in ms if m.get("name") not in PIPELINE]
+        m = rnd.choice(pipe if (rnd.random() < 0.5 and pipe) or not other else other)
+        m.set("required", "N" if m.get("required") == "Y" else "Y")
     elif kind == "moveframing":
         # a framing field of the header / trailer that is not in its customary place (it stays excluded from the members)
         o = root.find(rnd.choice(["header", "header", "trailer"]))
@@ -216,14 +225,14 @@ def check(prop, tier, seed):
         p = os.path.join(xdir, "variant-%d.xml" % i)
         ET.ElementTree(root).write(p)
         jobs.append((gendrv, fixgen, p, types, "variant-%d:%s" % (i, "+".join(e["op"] for e in sc_["script"]) or "none"), sc_["accept"], None, True))
-    for i in range(24 if quick else 112):
-        kind = ["rename", "addfield", "addmessage", "typemap", "moveframing", "deepgroup", "samegroup", "typemap"][i % 8]
+    for i in range(30 if quick else 140):
+        kind = ["rename", "addfield", "addmessage", "typemap", "moveframing", "deepgroup", "samegroup", "typemap", "hdrrequired", "hdrrequired"][i % 10]
         p = os.path.join(xdir, "extra-%d.xml" % i)
         tp = small_t
         if kind == "typemap":
             shutil.copy(small, p)
             tp = os.path.join(xdir, "types-%d.xml" % i)
-            types_variant(small_t, tp, rnd, small, idx=(i // 8) * 2 + (1 if i % 8 == 7 else 0))
+            types_variant(small_t, tp, rnd, small, idx=(i // 10) * 2 + (1 if i % 10 == 7 else 0))
         else:
             ET.ElementTree(extra_edits(ET.parse(small).getroot(), rnd, kind)).write(p)
         jobs.append((gendrv, fixgen, p, tp, "extra-%d:%s" % (i, kind), True, None, True))
